@@ -154,6 +154,7 @@ pub fn enumerate(a: &Ast, fam: Fam) -> Vec<Mal> {
             if nm.as_bytes() == c.proto_name.0.as_slice() {
                 continue;
             }
+            let nm: &str = nm;
             let mut b = (**c).clone();
             b.proto_name = Bs::s(nm);
             let f = refcodec::ref_encode(&Ast::Connect(Box::new(b)), fam, &st).bytes;
@@ -162,6 +163,18 @@ pub fn enumerate(a: &Ast, fam: Fam) -> Vec<Mal> {
                 site: format!("{nm:?}"),
                 frame: f,
                 expect: Expect::All(format!("InvalidProtocol({nm:?}, {})", c.level)),
+            });
+        }
+        for pad in [255usize, 256, 512] {
+            let mut b = (**c).clone();
+            let mut v = c.proto_name.0.clone();
+            v.extend(std::iter::repeat(b' ').take(pad));
+            b.proto_name = Bs(v.clone());
+            out.push(Mal {
+                name: "protocol-name-length",
+                site: format!("genuine+{pad} bytes"),
+                frame: refcodec::ref_encode(&Ast::Connect(Box::new(b)), fam, &st).bytes,
+                expect: Expect::All(format!("InvalidProtocol({}, {})", dbg_str(&v), c.level)),
             });
         }
         for s in spans_of(SK::ProtoName) {
